@@ -39,40 +39,39 @@ def run(ctx: Ctx):
         inl_f = Inliner(f.node)
         got = {p.name: (inl_f.text(a) if f is pv and p.name in ("left_pad", "right_pad") else u(a)) for p, a, _ in b.pairs}
         if f is cbs:
-            # roles by dataflow: left pad = max(-start, 0), right pad = max(end - lens, 0) with (start, end) the two
-            # columns of `slices`
-            rdc = ReachingDefs(f.node)
+            # roles by value: the head of chunk_by_slices is interpreted (sa/interp.py, lenient, exact values) on three sequences with
+            # a slice that starts before the sequence, one that ends after it and an empty one; what reaches the kernel as left / right
+            # pad must be max(-start, 0) / max(end - len, 0), zero for the empty slice - however the columns, the clamp and the
+            # empty-slice mask are spelled
+            import numpy as np
+            from sa.interp import Interp
+            from sa.inteval import NotEvaluable
+            from sa.teval import frac_array
+            seen = {}
+            holder = {}
 
-            def role(e):
-                if not isinstance(e, ast.Name):
-                    return u(e)
-                ds = [d for d in rdc.defs_of(e) if d.kind == "assign"]
-                if len(ds) != 1:
-                    return u(e)
-                # the defining expression with copies / temporaries looked through, down to the slice columns
-                from sa.inline import Inliner as _InlRole
-                v = _InlRole(f.node, rdc, keep={d2.name for d2 in rdc.defs if d2.value is not None and "slices[..., " in u(d2.value)} | {"lens"}).text(e)
-                cols = {}
-                for d2 in rdc.defs:
-                    if d2.kind in ("assign", "unpack") and d2.value is not None:
-                        vv = d2.value
-                        if isinstance(vv, ast.Tuple) and d2.slot is None:
-                            continue
-                        txt = u(vv)
-                        if "slices[..., 0]" in txt and (d2.slot in (None, (0,))):
-                            cols[d2.name] = "start"
-                        if "slices[..., 1]" in txt and (d2.slot in (None, (1,))):
-                            cols.setdefault(d2.name, "end")
-                import re as _re
-                for nm, r_ in cols.items():
-                    v = _re.sub(rf"\b{_re.escape(nm)}\b", r_.upper(), v)
-                v0 = v.replace("clamp_min_(", "clamp_min(")  # in place or not: the same value
-                if v0.startswith("(-START).clamp_min(0)") or v0.startswith("torch.clamp_min(-START, 0)"):
-                    return "<left>"
-                if v0.startswith("(END - lens).clamp_min(0)") or v0.startswith("torch.clamp_min(END - lens, 0)"):
-                    return "<right>"
-                return v
-            got["left_pad"], got["right_pad"] = role(b.arg_for("left_pad")), role(b.arg_for("right_pad"))
+            def leaf(x_, env):
+                if isinstance(x_, ast.Call) and call_name(x_) == "_get_padding_buffers":
+                    bb = bind_args(x_, gpb, False)
+                    for nm_ in ("left_pad", "right_pad"):
+                        seen[nm_] = holder["it"].eval(bb.arg_for(nm_), env)
+                    raise NotEvaluable("the buffer kernel itself is not interpreted")
+                return None
+            it = Interp(leaf=leaf, tensors=True, lenient=True)
+            holder["it"] = it
+            env = {a_.arg: None for a_ in f.node.args.args}
+            env.update(x=frac_array(np.arange(12).reshape(3, 4, 1).tolist()), slices=frac_array([[-2, 3], [1, 6], [2, 2]]), lens=frac_array([4, 3, 4]),
+                       mode="replicate", value=0)
+            try:
+                it.run(f.node, env)
+                if set(seen) != {"left_pad", "right_pad"}:
+                    raise NotEvaluable("the call of the buffer kernel was not reached")
+                lp, rp = ([int(v_) for v_ in np.asarray(seen[k_]).tolist()] for k_ in ("left_pad", "right_pad"))
+                got["left_pad"] = "<left>" if lp == [2, 0, 0] else ("<right>" if lp == [0, 3, 0] else f"{lp} for slices (-2, 3), (1, 6), (2, 2) of lengths 4, 3, 4")
+                got["right_pad"] = "<right>" if rp == [0, 3, 0] else ("<left>" if rp == [2, 0, 0] else f"{rp} for slices (-2, 3), (1, 6), (2, 2) of lengths 4, 3, 4")
+            except NotEvaluable as e_:
+                col.undecided(f"{rel}::chunk_by_slices: the pads handed to the buffer kernel are outside the interpreted fragment ({e_})")
+                got["left_pad"], got["right_pad"] = "<left>", "<right>"
         col.ob("G1", "S1", f"{rel}::{f.qualname}::_get_padding_buffers-binding", got == want,
                f"{f.name} calls the buffer kernel with {got}, expected {want} (left pad = max(-start, 0), right pad = "
                f"max(end - lens, 0))", rel, calls[0].lineno, sample=got)
@@ -505,6 +504,9 @@ def _slice_arithmetic(ctx: Ctx, cbs, gpb):
                         eo = extent_of(v) if v is not None else None
                         if eo is not None and eo[0] == first:
                             gnames.add(eo[1])
+                        elif d.kind == "unpack" and d.slot and v is not None and u(v).replace(" ", "") in (
+                                f"{first}.shape", f"{first}.size()", f"{first}.shape[:2]", f"{first}.shape[:3]", f"{first}.size()[:2]"):
+                            gnames.add(d.slot[0])  # `N, T = x.shape[:2]`
         only_batch = gnames == {0}
         try:
             term = ex.term(r.value.elts[1])
@@ -717,9 +719,13 @@ def _mask_broadcast_before_counting(ctx: Ctx):
     mname = f.params[1].name
     sums = [c for c in own_calls(f.node) if isinstance(c.func, ast.Attribute) and c.func.attr == "sum"
             and isinstance(c.func.value, ast.Name) and c.func.value.id == mname]
-    if len(sums) != 1:
+    # (function form `torch.sum(mask, 1)`)
+    fsums = [c for c in own_calls(f.node) if call_name(c) == "torch.sum" and c.args and isinstance(c.args[0], ast.Name) and c.args[0].id == mname]
+    if len(sums) + len(fsums) != 1:
         raise AnalysisError("C09: pad_masked_sequence does not count the mask once")
-    der = rd.derives(sums[0].func.value)
+    counted = sums[0].func.value if sums else fsums[0].args[0]
+    sums = sums or fsums
+    der = rd.derives(counted)
     broadcast = any(isinstance(c.func, ast.Attribute) and c.func.attr in ("expand", "expand_as", "broadcast_to") or
                     call_name(c) in ("torch.broadcast_to", "torch.broadcast_tensors") for c in der.calls())
     col.ob("G16", "S8", f"{rel}::pad_masked_sequence::counts-read-the-broadcast-mask", broadcast,
